@@ -10,7 +10,9 @@ TraceInit == l = 1 /\ cfg = NoCfg /\ st = [hops |-> 0]
 Step(e) ==
   CASE e.ev = "reset" -> cfg' = e /\ st' = InitLoop(e)
     [] e.ev = "hop" ->
-         /\ \A g \in HopViolations(cfg, st, e) : PrintT(<<"VIOL", l, cfg.id, HopProp(g, st), g>>)
+         /\ \A g \in HopViolations(cfg, st, e) :
+               /\ PrintT(<<"VIOL", l, cfg.id, HopProp(g, st), g>>)
+               /\ AlsoC10(g, st) => PrintT(<<"VIOL", l, cfg.id, "C10", g>>)
          /\ st' = AfterHop(cfg, st) /\ UNCHANGED cfg
     [] e.ev = "done" ->
          /\ \A g \in DoneViolations(cfg, st, e) : PrintT(<<"VIOL", l, cfg.id, DoneProp(g), g>>)
